@@ -35,6 +35,7 @@ def loopLabel (j : Json) : R Loop.Label := do
     | "semRel", [c] => pure (.semRel (← nat c))
     | "handlerEnd", [c, b] => pure (.handlerEnd (← nat c) (← bool b))
     | "fire", [k] => pure (.fire (← nat k))
+    | "cbRead", [k] => pure (.cbRead (← nat k))
     | "callback", [k] => pure (.callback (← nat k))
     | "vars", [cc, tm, fl] => pure (.vars (← nat cc) (← optNat tm) (← bool fl))
     | s, _ => throw s!"bad loop label {s}"
@@ -48,8 +49,8 @@ def shapeOf (a : Json) : R Shape :=
   | some (.str "repaired") => pure Shape.repaired
   | some j => do
     match (← arr j) with
-    | [x, y] => pure ⟨← bool x, ← bool y, false⟩
-    | [x, y, z] => pure ⟨← bool x, ← bool y, ← bool z⟩
+    | [x, y] => pure ⟨← bool x, CbCheck.ofCode (← nat y), false⟩
+    | [x, y, z] => pure ⟨← bool x, CbCheck.ofCode (← nat y), ← bool z⟩
     | _ => throw "bad shape"
 
 def cfgOf (a : Json) : R Cfg := do
@@ -160,13 +161,13 @@ def handle (fn : String) (a : Json) : R Json := do
   | "gen" =>
     pure (obj [("acceptTimeoutMillis", ofNat Gen.C33.acceptTimeoutMillis), ("graceFloorSecs", ofNat Gen.C33.graceFloorSecs),
       ("joinTimeoutSecs", ofNat Gen.C33.joinTimeoutSecs), ("clearsFlagOnAccept", ofBool Gen.C33.clearsFlagOnAccept),
-      ("callbackChecksCurrent", ofBool Gen.C33.callbackChecksCurrent),
+      ("callbackChecksCurrent", ofBool Gen.C33.callbackChecksCurrent), ("callbackCheck", ofNat Gen.C33.callbackCheck),
       ("registersInHandler", ofBool Gen.C33.registersInHandler), ("sharedUnderLock", ofBool Gen.C33.sharedUnderLock),
       ("loopShape", ofBool Gen.C33.loopShape), ("handlerShape", ofBool Gen.C33.handlerShape),
       ("timerShape", ofBool Gen.C33.timerShape), ("gcLimit", ofNat Gen.C33.gcLimit),
       ("launchShape", ofBool Gen.C33.launchShape), ("gcShape", ofBool Gen.C33.gcShape),
       ("workerExitShape", ofBool Gen.C33.workerExitShape), ("filelockChecksNlink", ofBool Gen.C33.filelockChecksNlink),
-      ("listenBeforeAnnounce", ofBool Gen.C33.listenBeforeAnnounce),
+      ("listenBeforeAnnounce", ofBool Gen.C33.listenBeforeAnnounce), ("lockKeyedBySocket", ofBool Gen.C33.lockKeyedBySocket),
       ("tcpListenBeforeAnnounce", ofBool Gen.C33.tcpListenBeforeAnnounce),
       ("filelockUnlinksOnRelease", ofBool Gen.C33.filelockUnlinksOnRelease), ("fingerprint", Json.str Gen.C33.fingerprint)])
   | "grace" => pure (ofNat (graceOf (← natF a "q") (← natF a "idle")))
@@ -190,7 +191,10 @@ def handle (fn : String) (a : Json) : R Json := do
     let lf ← (match fieldOpt a "listenFirst" with
       | none => pure LShape.extracted.listenFirst
       | some j => bool j)
-    let sh : LShape := ⟨nl, lf⟩
+    let lk ← (match fieldOpt a "lockBySocket" with
+      | none => pure LShape.extracted.lockBySocket
+      | some j => bool j)
+    let sh : LShape := ⟨nl, lf, lk⟩
     let ls ← (← arrF a "events").mapM launchLabel
     match (Launch.ts sh idle).run ls with
     | some s => pure (launchStateJson s)
